@@ -1,6 +1,8 @@
 import Firebolt.Model.EsSink
 import Firebolt.Generated.Source
 import Firebolt.Expected.Source
+import Firebolt.Generated.Closure
+import Firebolt.Expected.Closure
 /-!
 # C14 — Elasticsearch sink answers every index request exactly once, within its bounds
 
@@ -385,5 +387,9 @@ theorem source_esShutdown : GeneratedSrc.esShutdown = ExpectedSrc.esShutdown := 
 /-! ### functions the model's assumptions rest on (construction, wiring, surrounding calls) are unchanged -/
 theorem source_esSetup : GeneratedSrc.esSetup = ExpectedSrc.esSetup := by rfl
 theorem source_newElasticIndexClient : GeneratedSrc.newElasticIndexClient = ExpectedSrc.newElasticIndexClient := by rfl
+
+/-! ### influence closure: the pinned functions, and every function of the repository that writes a struct field or package
+variable they read, are unchanged (digests regenerated from /repo on every run; a difference names the functions) -/
+theorem closure_unchanged : GeneratedClo.C14 = ExpectedClo.C14 := by rfl
 
 end Firebolt.C14
